@@ -332,11 +332,13 @@ impl Ctx {
             new_sites,
             wall
         );
-        if !machinery.is_empty() {
-            return 2;
-        }
+        // a confirmed (re-executed, deterministic) violation is a verdict even if another part of the
+        // run hit a machinery problem
         if new_sites > 0 {
             return 1;
+        }
+        if !machinery.is_empty() {
+            return 2;
         }
         if self.evals.load(Ordering::Relaxed) == 0 && !self.replaying() {
             eprintln!("MACHINERY-ERROR property={} nothing was explored", self.id);
